@@ -186,7 +186,8 @@ def shards(tier, seed):
                 out.append({'kind': 'cvnc', 'n_cond': n, 'method': m})
         for m in FIT_METHODS:
             for s in ('none', 'vector', 'matrix'):
-                out.append({'kind': 'fit', 'n_cond': n, 'method': m, 'sigma': s})
+                for blk in _chunks(range(nm), 42 if n == 4 else 22):
+                    out.append({'kind': 'fit', 'n_cond': n, 'method': m, 'sigma': s, 'masks': [blk[0], blk[-1] + 1]})
                 if n == 4:
                     out.append({'kind': 'fitboot', 'n_cond': n, 'method': m, 'sigma': s})
             for blk in _chunks(range(nm), 14 if n == 4 else 16):
@@ -314,7 +315,7 @@ def run_shard(shard, ctx):
                               'vals': 'pos%d' % f}, ctx)
     elif kind == 'fit':
         n = shard['n_cond']
-        for mask in all_masks(n, tier):
+        for mask in all_masks(n, tier)[shard['masks'][0]:shard['masks'][1]]:
             for n_model, n_data in ((1, 1), (2, 2), (3, 2)):
                 for ridge in (0, 0.5):
                     for f in range(fills):
@@ -412,7 +413,7 @@ def _judge_compare(ctx, case, method, sig_tag, got, Xd, Yd, sigma, keep, tol):
             if not close(g, want, tol):
                 ctx.fail(sigp + '|value-mismatch', dict(case, i=i, j=j),
                          'entry (%d,%d): got %.12g, reference on entry-deleted vectors %.12g; x=%s y=%s keep=%s'
-                         % (i, j, g, want, list(x), list(y), keep[1]))
+                         % (i, j, g, want, [float(v) for v in x], [float(v) for v in y], keep[1]))
             if (i + 3 * j) % 5 == 0:
                 ctx.outcome(round(float(want), 9))
     return nontrivial
@@ -980,9 +981,11 @@ def _case_partials(case, ctx):
             if O.shape != D.shape:
                 ctx.fail(tag + '|shape', case, 'shape %r' % (O.shape,))
                 return
+            masks_kept = True
             for r in range(n_rdm):
                 j = R.scale_factor(O[r], D[r])
                 if not j['mask_same']:
+                    masks_kept = False
                     ctx.fail(tag + '|missing-pattern-changed', dict(case, rdm=r),
                              'in %s out %s' % (D[r].tolist(), O[r].tolist()))
                     continue
@@ -996,7 +999,7 @@ def _case_partials(case, ctx):
                 elif not j['c'] > 0:
                     ctx.fail(tag + '|constant-not-positive', dict(case, rdm=r), 'constant %r' % j['c'])
             present = [set(np.flatnonzero(~np.isnan(r)).tolist()) for r in D]
-            if case['vals'] == 'proportional':
+            if case['vals'] == 'proportional' and masks_kept:
                 # a common scale is observable on the entries two RDMs share (whole covering if it is
                 # connected by shared pairs, else inside each connected group)
                 ctx.count('rescale:overlap-connected' if R.overlap_connected(present)
